@@ -111,11 +111,15 @@ class Calls:
         if decl is not None and decl.get('_qual') and not prelude.is_modelled_method(ex, decl, objtype, name):
             if m.get('isArrow'):
                 pv = ex.ev(objn)
-                if not isinstance(pv, PtrVal) or pv.path is None:
+                if isinstance(pv, PtrVal) and pv.path is None:
+                    ex.oblige('bounds', 'null-dereference', z3.BoolVal(False), n)
+                    raise PathEnd()
+                if not isinstance(pv, PtrVal):
                     raise Unsupported('arrow call on %r' % (pv,))
                 tp = pv.path if pv.off is None else pv.path
             else:
                 tp = ex.lv(objn)
+            decl = self.devirtualise(ex, decl, tp)
             return self.call_decl(ex, decl, tp, args, n)
         return prelude.call_method(ex, objtype, name, objn, m.get('isArrow', False), args, n, decl)
 
@@ -139,6 +143,26 @@ class Calls:
             objtype = objn['type'].get('desugaredQualType') or objn['type']['qualType']
             return prelude.call_method(ex, objtype, name, objn, False, ops[1:], n, None)
         return prelude.call_free(ex, name, ops, n)
+
+    def devirtualise(self, ex, decl, tp):
+        """virtual call on an object whose dynamic class is known (created by make_shared in this function)"""
+        if not decl.get('virtual'):
+            return decl
+        try:
+            v = ex.read(tp)
+        except Unsupported:
+            return decl
+        if not isinstance(v, SVal):
+            return decl
+        qual = v.cls + '::' + decl.get('name', '')
+        if qual == decl.get('_qual'):
+            return decl
+        cands = [d for d in ex.tu.decls.values() if d.get('_qual') == qual and d.get('kind') == 'CXXMethodDecl'
+                 and d['type']['qualType'].split(')')[0] == decl['type']['qualType'].split(')')[0]]
+        if not cands:
+            return decl     # not overridden: the base implementation runs
+        cands.sort(key=lambda d: body_of(d) is None)
+        return cands[0]
 
     # --------------------------------------------------------------------------------- binding
     def bind_args(self, ex, decl, args, n):
@@ -301,13 +325,20 @@ class Calls:
                 self.type_inv(ex, result, rt)
         env_post = S.Env(ex, ex.store, names, this_path, extra)
         ex2 = dict(extra)
+        for g, e in c.ghost.items():
+            # ghost state of the callee is not visible to callers: an unknown value of the right sort
+            v0 = S.spec_eval_term(e, env_pre, extra)
+            ex2[g] = z3.Const(ex.fresh_name('ghost_' + g), v0.sort()) if z3.is_expr(v0) else v0
         ex2['old'] = OldNS(env_pre)
         if result is not None and not isinstance(result, RefVal):
             ex2['result'] = env_post.wrap(result)
         elif isinstance(result, RefVal):
             ex2['result'] = env_post.wrap(ex.read(result.path))
+        S.MODE[0] = 'assume'
         for lab, e in c.ensures:
             ex.assume(S.spec_eval(e, env_post, ex2))
+        if result is not None and not isinstance(result, RefVal):
+            ex.ghost_trigger('ret:' + re.sub(r'<.*>', '', c.name).split('::')[-1], None, [result])
         return result
 
     def bind_target(self, ex, tgt, names, this_path):
